@@ -6,6 +6,9 @@ from ..propsbase import *
 
 ASSUMPTIONS = ["reference: harness/ref.py (plain Python ints: //, %, exact /, <<, >>, &|^ on non-negative operands, comparisons as 0/1, "
                "**, abs, selection); operands of kind int / secret int / secret boolean",
+               "programs that use the same secret register twice in bit-splitting operations (>>, &, |, ^, ~, to_bits, check_positive, secret "
+               "exponent / shift count), the first use inside a guarded region (dead, live) or outside any, the operand inside, on the boundary "
+               "of and outside [0, 2^bitlength); registers computed inside a dead region are not specified, everything after it is",
                "totality is checked on operands inside the documented domain: all operand values, results and comparison differences "
                "satisfy |v| < 2^(bitlength-1); divisors non-zero; exact divisibility for '/'; bitwise/shift operands non-negative, "
                "shift counts and exponents below the bitlength"]
@@ -81,7 +84,7 @@ def explore(ctx, extended=False, focus=None):
                "or raised; distinct = (operator, kinds, bitlength, error class)")
     n = ctx.n(5000, 100000) * (4 if extended else 1)
     mix = [(8, lambda rnd, cid, p: progs.op_case(rnd, cid, "valid", INT_OPS, KINDS, p=p)), (4, progs.edge_case), (2, progs.unop_case),
-           (1, progs.ite_case), (2, progs.chain_case), (1, lambda rnd, cid, p: progs.method_case(rnd, cid, p, ["if_else", "val", "check_zero", "check_nonzero", "to_bits_rt"]))]
+           (1, progs.ite_case), (2, progs.chain_case), (2, progs.reuse_case), (1, lambda rnd, cid, p: progs.method_case(rnd, cid, p, ["if_else", "val", "check_zero", "check_nonzero", "to_bits_rt"]))]
     cases = corpus_cases("C05") + progs.generate(ctx.rnd, n, "c05x" if extended else "c05_", mix=mix)
     cases = [c for c in cases if c.cfg["ign"] == 0]
     for r in execute_all(cases):
@@ -109,7 +112,7 @@ def explore(ctx, extended=False, focus=None):
             if R.regs[i][0] == "RAISE" and R.kinds[i] == "?" and not got.startswith("N"):
                 # plain Python raises here (division by zero, inexact '/', negative shift/exponent): a value was returned
                 ins = r.case.instrs[i].split()
-                if ins[0] in ("bin", "un"):
+                if ins[0] in ("bin", "un") or ins[:2] == ["call", "to_bits"]:
                     sig = instr_sig(r.case, r.regs, i); sig["dev"] = "value-where-python-raises"
                     ex.violations.append(Violation(sig, f"r{i} ({r.case.instrs[i]}) returned {got[:60]} where plain Python raises / the result is undefined",
                                                    {"case": r.case.line(), "register": i}))
